@@ -407,6 +407,47 @@ theorem m2m_update_spec (s o : M2M α) (wo : o.WF) (a x : α) :
     x ∈ getSet a (s.updateFrom o).data ↔ x ∈ getSet a s.data ∨ x ∈ getSet a o.data :=
   M2M.updateFrom_data wo a x
 
+/-- a call made through `.inv` does to the relation, read transposed, what the same call made through the object does
+    to the relation: `x` is under `a` afterwards iff `a` is under `x` in what `op` makes of the inverse object -/
+theorem m2m_through_inv_transposed (s : M2M α) (w : s.WF) (op : M2MOp α) (a x : α) :
+    x ∈ getSet a (s.stepSide true op).1.data ↔ a ∈ getSet x (s.flip.step op).1.data := by
+  have w2 := w.flip.step op
+  show x ∈ getSet a (s.flip.step op).1.inv ↔ _
+  exact (w2.transpose x a).symm
+
+/-- hence: `del x.inv[v]` drops exactly the pairs whose value is `v`; `x.inv[v] = ks` makes `ks` the keys holding `v`
+    and touches no other value; `x.inv.replace(v, nv)` renames the value `v` to `nv` in every pair -/
+theorem m2m_mutators_through_inv (s : M2M α) (w : s.WF) (v nv : α) (ks : List α) (a x : α) :
+    (hasKey v s.inv = true → (x ∈ getSet a (s.stepSide true (.delitem v)).1.data ↔ x ≠ v ∧ x ∈ getSet a s.data)) ∧
+    (x ∈ getSet a (s.stepSide true (.setitem v ks)).1.data ↔ if x = v then a ∈ ks else x ∈ getSet a s.data) ∧
+    (x ∈ getSet a (s.stepSide true (.replace v nv)).1.data ↔
+      (x ≠ v ∧ x ∈ getSet a s.data) ∨ (x = nv ∧ v ∈ getSet a s.data)) := by
+  have wf := w.flip
+  have t : ∀ p q : α, p ∈ getSet q s.inv ↔ q ∈ getSet p s.data := fun p q => (w.transpose p q).symm
+  refine ⟨fun hk => ?_, ?_, ?_⟩
+  · rw [m2m_through_inv_transposed s w]
+    show a ∈ getSet x (s.flip.delitem v).1.data ↔ _
+    rw [m2m_delitem_spec s.flip v x a hk]
+    show x ≠ v ∧ a ∈ getSet x s.inv ↔ _
+    rw [t]
+  · rw [m2m_through_inv_transposed s w]
+    show a ∈ getSet x (s.flip.setitem v ks).data ↔ _
+    rw [m2m_setitem_spec s.flip wf v ks x a]
+    split
+    · rfl
+    · show a ∈ getSet x s.inv ↔ _
+      rw [t]
+  · rw [m2m_through_inv_transposed s w]
+    show a ∈ getSet x (s.flip.replace v nv).data ↔ _
+    rw [m2m_replace_spec s.flip wf v nv x a]
+    show (x ≠ v ∧ a ∈ getSet x s.inv) ∨ (x = nv ∧ a ∈ getSet v s.inv) ↔ _
+    rw [t, t]
+/-- non-vacuity: `del x.inv[5]` on pairs (1,5) (2,5) (2,6) leaves (2,6); `x.inv[6] = [1]` moves value 6 from key 2 to key 1 -/
+example : ((M2M.empty.updatePairs [(1, 5), (2, 5), (2, 6)] : M2M Nat).stepSide true (.delitem 5)).1 = ⟨[(2, [6])], [(6, [2])]⟩ ∧
+    hasKey 5 (M2M.empty.updatePairs [(1, 5), (2, 5), (2, 6)] : M2M Nat).inv = true ∧
+    ((M2M.empty.updatePairs [(1, 5), (2, 5), (2, 6)] : M2M Nat).stepSide true (.setitem 6 [1])).1
+      = ⟨[(1, [5, 6]), (2, [5])], [(5, [1, 2]), (6, [1])]⟩ := by decide
+
 /-! the readers (`m[k]`, `get`, `in`, `len`, `keys()` / `iter`) - round 3: inside the model, compared by the
     correspondence on every dump -/
 
